@@ -109,15 +109,14 @@ class C18(flow.Spec):
             'fonts, logo off / each of the three logos, pixel margins right of / below the grid; non-trivial = the terminal was active for at '
             'least one write')
     assumptions = ['the cell-level console semantics (Console/Grid.v: Write one in-grid cell, Fill clamp+clip, Scroll moves lines, junk in vacated '
-                   'lines) is what C19 states of the drivers; the Coq theorems are over that abstract console, the pixel level is checked by the '
-                   'harness (reference painter) on the real drivers',
+                   'lines) is what C19 proves of the driver models; C18_sync_text / C18_sync_pixels_fb compose C18_sync_inv with those refinement '
+                   'lemmas (Console/VgaProofs.v, Console/VesaGridProofs.v) down to text cells / pixels of the driver MODELS; on the real drivers the '
+                   'same statement is checked by the harness (decoded text cells / reference painter)',
+                   'the space glyph of the font is blank (C19_shipped_space_glyph_blank: true of the three shipped fonts)',
                    'the terminal is attached while inactive and exactly once (as kernel/hal does: AttachTo, then SetState(Active))',
                    'add-only export shim in package console (build tag verif, injected by overlay) replaces mapRegionFn/portWriteByteFn as the '
                    "package's own tests do, so that DriverInit maps the framebuffer at host memory"]
-    partial = ['C18_full_sync_pixels_fb (Props/C18_text.v: the composition down to framebuffer pixels for VesaFbConsole - every colour byte of '
-               'every cell pixel is the packed palette colour selected by the glyph bit, nothing outside the grid changes) is stated but not '
-               'proved: it needs the refinement of Console/Grid.v by Console/Vesa.v from the C19 development. The text-mode composition '
-               '(C18_sync_text) is proved. On the real VesaFbConsole the statement is what the harness monitor checks (reference painter).']
+    partial = []
 
     def gen_cases(self, rng, tier):
         n = {'quick': 1500, 'thorough': 30000, 'search': 3000}[tier]
